@@ -43,6 +43,7 @@ NameTable == <<
   [p |-> "Durs",     g |-> "Durs",     s |-> "durs"],
   [p |-> "FooBar",   g |-> "FooBar",   s |-> "foo_bar"],
   [p |-> "foo_bar",  g |-> "FooBar",   s |-> "foo_bar"],
+  [p |-> "foobar",   g |-> "Foobar",   s |-> "foobar"],
   [p |-> "lower_num", g |-> "LowerNum", s |-> "lower_num"],
   [p |-> "a_b",      g |-> "AB",       s |-> "a_b"],
   [p |-> "x_y_z",    g |-> "XYZ",      s |-> "x_y_z"],
@@ -85,7 +86,7 @@ Snake(p) == IF p \in PoolNames THEN NameTable[NameRow(p)].s ELSE p
 \* Go's byte order on the Go names used for sorting (sort.Slice by Field.Name); "active" is the
 \* placeholder.  Upper-case letters sort before lower-case ones.
 GoNameOrder == << "AB", "Alpha", "Bad", "BranchA", "BranchB", "BranchC", "BranchD", "BranchE", "Cust", "Custs",
-  "Dict", "Dur", "Durs", "Empty", "Extra", "Fa", "Fb", "Fc", "Fd", "Fe", "Ff", "Fg", "Fh", "Fi", "Fj", "Fk", "Fl", "Flag", "Flt", "Fm", "Fn", "Fo", "FooBar", "Grp", "Grp2", "Inner", "Items", "Kind",
+  "Dict", "Dur", "Durs", "Empty", "Extra", "Fa", "Fb", "Fc", "Fd", "Fe", "Ff", "Fg", "Fh", "Fi", "Fj", "Fk", "Fl", "Flag", "Flt", "Fm", "Fn", "Fo", "FooBar", "Foobar", "Grp", "Grp2", "Inner", "Items", "Kind",
   "Leaf", "LowerGrp", "LowerNum", "MaxTTL", "Mid", "Nothing", "Num", "Other", "Outer", "Poison", "Raw", "Root", "Str",
   "Sub", "Sub2", "Subs", "Tags", "Third", "When", "Whens", "XYZ", "Zed", "active" >>
 
